@@ -1,4 +1,4 @@
-"""ASYNC x nesting matrix (C12, C13, C14): `vharness gen ASYNCNEST` — one ASYNC select item inside every pair of nesting
+"""ASYNC x nesting matrix (C06, C12, C13, C14): `vharness gen ASYNCNEST` — one ASYNC select item inside every pair of nesting
 levels (derived table, CTE, UNION side, join operand, inner dimension, row-scoped subquery, EXISTS) — evaluated with
 EngineRun.check_c12: when Exec returns every ASYNC call has completed and its value sits in its column (C14), the
 result holds no unresolved slot (C12), and nobody is still writing to it (C13). A generated sub-run like the C05
@@ -59,5 +59,5 @@ def make(pid):
 
 
 def install(CONFIG, EXTRA_TB, ASSUME):
-    for pid in ("C12", "C13", "C14"):
+    for pid in ("C06", "C12", "C13", "C14"):
         CONFIG.setdefault(pid, {}).setdefault("stages", []).append(make(pid))
